@@ -14,7 +14,26 @@ use reed_solomon_simd::rate::{
 };
 use reed_solomon_simd::{Error, ReedSolomonDecoder, ReedSolomonEncoder};
 
+#[cfg(not(no_neon_port))]
 pub type NeonEmu = crate::neon_port::Neon;
+/// the ported Neon source is unavailable for this tree: NoSimd stands in for the type (never selected:
+/// "neonemu" is then absent from engines_all() and with_engine! refuses the name)
+#[cfg(no_neon_port)]
+pub type NeonEmu = NoSimdStandIn;
+#[cfg(no_neon_port)]
+#[derive(Clone, Copy)]
+pub struct NoSimdStandIn;
+
+/// notes about source ports that had to be left out (empty on a tree the ports apply to)
+pub fn port_notes() -> Vec<String> {
+    let mut v = Vec::new();
+    for (what, note) in [("emulated Neon engine not explored", env!("VERIF_NEON_PORT_NOTE")), ("AArch64 arm of DefaultEngine not explored", env!("VERIF_AARCH64_PORT_NOTE"))] {
+        if !note.is_empty() {
+            v.push(format!("{what}: {note}"));
+        }
+    }
+    v
+}
 
 // ----------------------------------------------------------------------
 // engines
@@ -55,6 +74,7 @@ impl Eng for DefaultEngine {
         DefaultEngine::new()
     }
 }
+#[cfg(not(no_neon_port))]
 impl Eng for NeonEmu {
     const NAME: &'static str = "neonemu";
     fn make() -> Self {
@@ -72,6 +92,7 @@ pub fn engines_all() -> Vec<&'static str> {
         v.push("avx2");
     }
     v.push("default");
+    #[cfg(not(no_neon_port))]
     v.push("neonemu");
     v
 }
@@ -108,6 +129,7 @@ macro_rules! with_engine {
                 type $E = __e::DefaultEngine;
                 $body
             }
+            #[cfg(not(no_neon_port))]
             "neonemu" => {
                 type $E = $crate::core::NeonEmu;
                 $body
